@@ -31,7 +31,10 @@ use futures::{
     ready,
     stream::{FuturesUnordered, StreamExt},
 };
+#[cfg(not(libp2p_verif))]
 use futures_timer::Delay;
+#[cfg(libp2p_verif)]
+use crate::verif_delay::Delay;
 use libp2p_core::muxing::StreamMuxerBox;
 use libp2p_identity::PeerId;
 
